@@ -1,6 +1,7 @@
 import Emerge.Inst.Tables
 import Emerge.Proofs.LRDriver
 import Emerge.LREval
+import Emerge.Inst.ParserDrv
 /-
   C18 — parse callbacks fire in derivation order; errors abort; an evaluation callback receives the
   values of the body symbols left to right and its result becomes the value of the head.
@@ -159,5 +160,13 @@ theorem C18_eval_error {V : Type} (prods : List Prod) (eval : Nat → Nat → Li
     (hp : prods[p]? = some (A, β)) (hv : popValues β.length st = some (rhs, st')) (hfail : eval calls p rhs = none) :
     evalEvents prods eval tokVal (.prod p :: es) st calls = .error (.evalError calls) := by
   simp [evalEvents, hp, hv, hfail]
+
+/-- The driver the models follow: `Parse`, `ParseAndBuildAST`, `ParseAndEvaluate` and `nextToken` of the EBNF parser read,
+    statement for statement, as expected (re-extracted from internal/ebnf/parser/parser.go on every run). -/
+theorem C18_driver_source :
+    Gen.ParserDrv.body_Parse = Ref.ParserDrv.body_Parse ∧ Gen.ParserDrv.body_ParseAndBuildAST = Ref.ParserDrv.body_ParseAndBuildAST ∧
+    Gen.ParserDrv.body_ParseAndEvaluate = Ref.ParserDrv.body_ParseAndEvaluate ∧ Gen.ParserDrv.body_nextToken = Ref.ParserDrv.body_nextToken :=
+  ⟨Inst.ParserDrv.body_Parse_eq, Inst.ParserDrv.body_ParseAndBuildAST_eq, Inst.ParserDrv.body_ParseAndEvaluate_eq,
+   Inst.ParserDrv.body_nextToken_eq⟩
 
 end Emerge.Props.C18
